@@ -1000,7 +1000,9 @@ class TestResult(unittest.TestResult):
     def addSkip(self, test, reason):
         if not hasattr(self, "_test_state"):
             # ``startTest`` was not called -- set up extected state
-            self._test_state = test.__dict__
+            # (a copy: ``stopTest`` clears ``test.__dict__`` and restores
+            # it from this state)
+            self._test_state = test.__dict__.copy()
             # ``stopTest`` will call ``testTearDown``: keep the layers'
             # per-test hooks balanced
             self.testSetUp()
